@@ -39,11 +39,23 @@ class XLoop(vloop.VLoop):
             return None
         return super().full_state()
 
+    def _label(self, h):
+        base = super()._label(h)
+        if not is_task_step(h):
+            args = getattr(h, '_args', None) or ()
+            if args and isinstance(args[0], asyncio.Task):
+                base += f'({args[0].get_name()})'
+        return base
+
     def sched_state(self):
-        s = super().sched_state()
-        if self._hidden:
-            return s + (tuple(self._label(h) for h in self._hidden if not h._cancelled),)
-        return s
+        if not self.fifo_plumbing:
+            return super().sched_state()
+        # task steps as a set (every order of them is explored), plumbing callbacks in their FIFO order
+        live = [h for h in self._ready if not h._cancelled]
+        steps = sorted(self._label(h) for h in live if is_task_step(h))
+        plumb = [self._label(h) for h in live if not is_task_step(h)] + [self._label(h) for h in self._hidden if not h._cancelled]
+        timers = tuple(sorted((round(h._when - self._vtime, 9), self._label(h)) for h in self._scheduled if not h._cancelled))
+        return (tuple(steps), tuple(plumb), timers)
 
     def step(self):
         """`fifo_plumbing`: callbacks that are not task steps (future done-callbacks, timer callbacks: asyncio's own
